@@ -349,9 +349,37 @@ def check(ctx, case):
     expected = _expected_by_construction(plan)
     try:
         t = txplan.realise(plan)
+        if case.get('null_input'):
+            # one more input with the null outpoint (what a coinbase input has), present BEFORE signing so that every
+            # signature commits to it; it carries no signature itself and a transaction with other inputs is no
+            # coinbase transaction: whoever signed the rest, this transaction does not verify
+            t.add_input('00' * 32, 0xffffffff if case['null_input'] == 'coinbase_n' else 0, value=50000)
         _sign(t, plan, case.get('sign_style', 'per_input'))
         raw = t.raw()
+        if case.get('null_input'):
+            ctx.klass('null_input.' + case['null_input'])
+            got, exc = _lib_verify(t)
+            if got:
+                raise Discrepancy('sound.null_input:object', 'verify() True for a transaction whose input %d has the '
+                                  'null outpoint and no signature (the other inputs are signed)' %
+                                  len(plan['inputs']), case)
+            try:
+                t2 = _parse_for_verify(raw, plan, amounts)
+                got2, exc2 = _lib_verify(t2)
+            except Exception as e:
+                ctx.refusal('null_input.parse.%s' % type(e).__name__)
+                return
+            if got2:
+                raise Discrepancy('sound.null_input:bytes', 'verify() True after parsing a transaction whose input %d '
+                                  'has the null outpoint and no signature' % len(plan['inputs']), case)
+            return
+    except Discrepancy:
+        raise
     except Exception as e:
+        if case.get('null_input'):
+            # (refusing to sign a transaction that has such an input is an answer too)
+            ctx.refusal('null_input.sign.%s' % type(e).__name__)
+            return
         if not expected:
             ctx.refusal('sign_partial.%s' % type(e).__name__)
             return
@@ -761,7 +789,8 @@ def _strategy(ctx):
                 # the object is (successfully) verified once before it is tampered with: verdicts may not be remembered
                 'verify_first': draw(st.booleans()), 'restore': draw(st.sampled_from([False, False, True])),
                 'resign_one': draw(st.sampled_from([None, None, 0, 1, 2])),
-                'sign_style': draw(st.sampled_from(['per_input', 'per_input', 'keys_no_index', 'one_call']))}
+                'sign_style': draw(st.sampled_from(['per_input', 'per_input', 'keys_no_index', 'one_call'])),
+                'null_input': draw(st.sampled_from([None] * 8 + ['n0', 'coinbase_n'])) if mode != 'partial' else None}
     return cases()
 
 
